@@ -13,6 +13,7 @@ import (
 	"fmt"
 	"math"
 	"os"
+	"path/filepath"
 	"sort"
 	"strings"
 	"sync"
@@ -375,6 +376,8 @@ func (r *runner) apply(o hop) bool {
 			return k
 		}
 		nb := inOrderBlocks()
+		nbAll := len(r.d.Blocks())
+		hminBefore, _, _ := r.d.HeadTimes()
 		switch o.Kind {
 		case opCompact:
 			err, name = r.d.Compact(), "Compact"
@@ -387,7 +390,8 @@ func (r *runner) apply(o hop) bool {
 			r.goViol = append(r.goViol, fmt.Sprintf("%s returned %v", name, err))
 			return false
 		}
-		if o.Kind == opCompactOOO || (o.Kind == opCompact && inOrderBlocks() > nb) {
+		hminAfter, _, _ := r.d.HeadTimes()
+		if o.Kind == opCompactOOO || (o.Kind == opCompact && (inOrderBlocks() > nb || len(r.d.Blocks()) > nbAll || hminAfter != hminBefore)) {
 			// Not modelled (see notes): compactOOOHead wrote its blocks but truncateOOO left the
 			// out-of-order chunks in the head (chunks reloaded by an earlier restart whose refs are
 			// not above Head.minOOOMmapRef).  The history ends before this op.
@@ -457,13 +461,24 @@ func (r *runner) apply(o hop) bool {
 				}
 			}
 		}
+		replays := false
 		for i, cs := range after.io {
 			for _, c := range cs {
 				for _, x := range c.Samples {
 					if !oldIO[key{i, false, x.T, x.V}] {
-						r.notePattern("restart-replays-compacted-samples")
+						replays = true
 					}
 				}
+			}
+		}
+		if replays {
+			r.notePattern("restart-replays-compacted-samples")
+			// Not modelled: WAL checkpoints.  When compacted samples are replayed AND a checkpoint has
+			// already dropped part of the log, the model (which replays the whole log) cannot follow.
+			if cps, _ := filepath.Glob(filepath.Join(r.d.Dir, "wal", "checkpoint.*")); len(cps) > 0 {
+				r.classes["stopped-restart-replay-after-wal-checkpoint"]++
+				r.stopped = true
+				return false
 			}
 		}
 		r.steps = append(r.steps, fmt.Sprintf("SOp (Restart %s) %s", gallina.List(rl), gObs(r.d, r.n)))
@@ -777,7 +792,7 @@ func main() {
 		runCase(idx, nil)
 		return
 	}
-	total := len(cp) + f.Count(24, 1000)
+	total := len(cp) + f.Count(24, 400)
 	outs := make([]outcome, total)
 	var wg sync.WaitGroup
 	sem := make(chan struct{}, 12)
